@@ -7,7 +7,7 @@ use crate::lexer::{ref_lex, term_literal, LTok};
 use crate::runner::*;
 use crate::tape::Tape;
 use crate::tcase::*;
-use crate::term::{describe_table, norm, set_table, OpSpec, Term};
+use crate::term::{describe_table, norm, set_table, OpSpec};
 use exmex::prelude::*;
 use serde_json::{json, Value};
 use std::collections::BTreeSet;
